@@ -175,6 +175,9 @@ func (g *genState) genOps(t *rapid.T, cur *Node, maxN int) []KV {
 		if len(g.keys) > 0 {
 			k = g.keys[rapid.IntRange(0, len(g.keys)-1).Draw(t, "ki")]
 		}
+		if g.spec.BigBatches && chance(t, "bulkkey", 12) {
+			k = []byte(fmt.Sprintf("k%04d", rapid.IntRange(0, 700).Draw(t, "bk")))
+		}
 		if used[string(k)] {
 			continue
 		}
@@ -390,11 +393,51 @@ func (g *genState) genStructural(t *rapid.T) *Batch {
 	return root
 }
 
+// genDeepOnly draws a batch whose only key operations sit in a grandchild
+// (or deeper) collection: nothing at the top level, nothing in between.
+func (g *genState) genDeepOnly(t *rapid.T) *Batch {
+	depth := rapid.IntRange(2, 3).Draw(t, "ddepth")
+	root := &Batch{}
+	cur := root
+	node := g.model
+	path := ""
+	for d := 1; d <= depth; d++ {
+		name := rapid.SampledFrom(childPool[:3]).Draw(t, "dname")
+		path += "/" + name
+		var sub *Node
+		if node != nil {
+			sub = node.Children[name]
+		}
+		if sub == nil && g.spec.NoRecreate && g.deadKids[path] {
+			g.excluded++
+			break
+		}
+		nb := &Batch{}
+		cur.Children = append(cur.Children, ChildBatch{Name: name, B: nb})
+		cur = nb
+		node = sub
+	}
+	if node == nil {
+		node = NewNode()
+	}
+	cur.Ops = g.genOps(t, node, 4)
+	if len(cur.Ops) == 0 {
+		k := []byte("a")
+		if len(g.keys) > 0 {
+			k = g.keys[0]
+		}
+		cur.Ops = []KV{{Op: OpSet, K: k, V: []byte(fmt.Sprintf("v%d.d", g.batchNo))}}
+	}
+	return root
+}
+
 func (g *genState) nextBatch(t *rapid.T) *Batch {
 	g.batchNo++
 	var b *Batch
 	if g.spec.Children && !g.spec.NoStructOnly && chance(t, "structural", 6) {
 		b = g.genStructural(t)
+	} else if g.spec.Children && chance(t, "deeponly", 5) {
+		b = g.genDeepOnly(t)
 	} else {
 		b = g.genBatch(t, g.model, 0, "")
 	}
@@ -436,6 +479,11 @@ func genConfig(t *rapid.T, spec *GenSpec) Config {
 	c.Backing = rapid.SampledFrom(spec.Backings).Draw(t, "backing")
 	c.MinMergePct = rapid.SampledFrom([]float64{0, 0.01, 5}).Draw(t, "minMergePct")
 	c.DeferredSort = chance(t, "deferredSort", 30)
+	if c.DeferredSort {
+		// every read sorts the deferred segments it touches; with sparse reads
+		// the merger and persister meet segments nobody has sorted yet
+		c.SparseReads = chance(t, "sparseReads", 60)
+	}
 	c.CachePersisted = chance(t, "cachePersisted", 40)
 	c.MaxPreMergerBatches = rapid.SampledFrom([]int{0, 3, 1, 2}).Draw(t, "maxPreMerger")
 	c.MergeOp = spec.Merge
@@ -953,6 +1001,15 @@ func genC18(t *rapid.T, spec *GenSpec) *Program {
 		}
 	}
 	x := C18Extra{EarlyClose: chance(t, "early", 25)}
+	if x.EarlyClose && spec.NoStructOnlyEmpty {
+		// an early close can leave the store empty although key operations were
+		// executed (open finding F14e): turn child-only structural batches off
+		for i := range p.Ops {
+			if p.Ops[i].Kind == "batch" && len(p.Ops[i].B.Children) > 0 && !batchHasKeyOps(p.Ops[i].B) {
+				p.Ops[i].B.Ops = []KV{{Op: OpSet, K: []byte("a"), V: []byte("x")}}
+			}
+		}
+	}
 	tampers := []string{"junk-empty-newer", "junk-garbage-newer", "junk-header-only-newer", "truncated-copy-newer", "tear-newest", "unrelated-file", "old-named-junk"}
 	nt := pick(t, "ntamper", 15, 50, 35)
 	for i := 0; i < nt; i++ {
